@@ -28,12 +28,13 @@ Definition lkind_eqb (a b : lkind) : bool :=
    an index outside the table resolves to the nil client) *)
 Record capv := mkCap { cv_msg : Z; cv_idx : Z; cv_intab : bool; cv_client : Z }.
 
-(* Every list is a list of element values in their STRUCT VIEW:
+(* Struct data sections are lists of 64-bit WORDS (little-endian value of 8 bytes; a section
+   of 1..7 bytes, which only occurs in the struct view of a primitive element, is one word).
+   Every list is a list of element values in their STRUCT VIEW:
      void element        VStruct [] []
-     w-byte primitive    VStruct (w little-endian bytes) []
+     w-byte primitive v  VStruct [v] []       (the value as sole field, 0 <= v < 2^(8w))
      pointer             VStruct [] [p]
-     composite element   VStruct data ptrs     (all elements of one list have one size)
-   Struct data are bytes (0..255). *)
+     composite element   VStruct data ptrs *)
 Inductive value :=
 | VNull
 | VCap (c : capv)
@@ -123,6 +124,14 @@ Definition mk_capv (mid : Z) (caps : list Z) (i : Z) : capv :=
 Definition kind_of_width (w : Z) : lkind :=
   if w =? 0 then LVoid else if w =? 1 then LB1 else if w =? 2 then LB2 else if w =? 4 then LB4 else LB8.
 
+(* bytes -> words, the last partial word zero-extended *)
+Fixpoint words_of_bytes (b : list Z) : list Z :=
+  match b with
+  | b0 :: b1 :: b2 :: b3 :: b4 :: b5 :: b6 :: b7 :: r => le_decode [b0; b1; b2; b3; b4; b5; b6; b7] :: words_of_bytes r
+  | [] => []
+  | l => [le_decode l]
+  end.
+
 (* denote: the value a walked tree (ReadOps.walk) stands for.  [mid] identifies the message
    the tree was read from, [caps] is its capability table (client ids, 0 = nil).
    Error nodes have no value (mapped to VNull; excluded by [tree_ok]). *)
@@ -130,13 +139,13 @@ Fixpoint denote (mid : Z) (caps : list Z) (t : tree) : value :=
   match t with
   | TNull | TErr | TPanic | TFuel => VNull
   | TCap i => VCap (mk_capv mid caps i)
-  | TStruct d ps => VStruct d (map (denote mid caps) ps)
+  | TStruct d ps => VStruct (words_of_bytes d) (map (denote mid caps) ps)
   | TPtrs _ es => VList LPtr (map (fun e => VStruct [] [denote mid caps e]) es)
   | TComp _ _ es => VList LComp (map (denote mid caps) es)
   | TPrim w n vs =>
     VList (kind_of_width w)
           (if w =? 0 then repeat (VStruct [] []) (Z.to_nat n)
-           else map (fun v => VStruct (le_encode (Z.to_nat w) v) []) vs)
+           else map (fun v => VStruct [v] []) vs)
   | TBits _ bs => VBits bs
   end.
 
